@@ -4,7 +4,7 @@
 # pointed at it with `gvc check -repo`.  Output: one line per (seed, check) in out/seedmatrix.txt.
 # Which checks: the seed's own property (if registered) plus the checks named in seeded/<id>/checks (optional) plus C01.
 cd /verif
-export GOFLAGS=-mod=mod GOPROXY=off GOSUMDB=off GOTOOLCHAIN=local
+export GOFLAGS=-mod=mod GOPROXY=off GOSUMDB=off GOTOOLCHAIN=local GVC_NORETRY=1
 wt=${TMPDIR:-/tmp}/seedmatrix_wt.$$
 mkdir -p out
 git -C /repo worktree add -q --detach $wt HEAD || exit 2
